@@ -183,6 +183,59 @@ def member_variant(ctx, s):
                       what="the delay rows of member 0 change with member 1's constant input series: %s" % (bad[:2],))
 
 
+def block_input_variant(ctx, s):
+    """a piecewise-constant constant input inside a delayed expression, given once on every stamp (history and
+    horizon) and once on every second stamp only: the same signal, so the same rows"""
+    import random
+    r2 = random.Random("b" + json.dumps(s, sort_keys=True, default=str))
+    times = [Fraction(t) for t in s["times"]]
+    base = json.loads(json.dumps(s))
+    base["ensemble_size"] = 1
+    for key in ("param_values", "constant_input_values", "history"):
+        base[key] = [json.loads(json.dumps(base.get(key, [{}])[0]))]
+    base.pop("probabilities", None)
+    hist = [times[0] - 4, times[0] - 3, times[0] - 2, times[0] - 1, times[0]]
+    stamps = hist + times[1:]
+    base["constant_inputs"] = list(base.get("constant_inputs", [])) + ["cb"]
+    base.setdefault("interpolation", {})["cb"] = r2.choice([1, 1, 2])          # previous / next value
+    mode = base["interpolation"]["cb"]
+    coarse = [t for i, t in enumerate(stamps) if i % 2 == 0] + ([stamps[-1]] if len(stamps) % 2 == 0 else [])
+    cvals = [tr.dy(r2) for _ in coarse]
+
+    def value(t):
+        if mode == 1:
+            return cvals[max(i for i, c_ in enumerate(coarse) if c_ <= t)]
+        return cvals[min(i for i, c_ in enumerate(coarse) if c_ >= t)]
+    fine = [value(t) for t in stamps]
+    d = base["delayed_feedback"][r2.randrange(len(base["delayed_feedback"]))]
+    d[0] = ["+", d[0], ["*", ["c", "2"], ["v", "cb"]]]
+    coll = base["states"] + base["algebraics"] + base["controls"]
+    for v in coll:
+        if not v.startswith("dly"):
+            base["history"][0][v] = {"times": [str(t) for t in hist], "values": [str(tr.dy(r2)) for _ in hist]}
+
+    def rows(ts, vs):
+        sp = json.loads(json.dumps(base))
+        sp["constant_input_values"][0]["cb"] = {"times": [str(t) for t in ts], "values": [str(x) for x in vs]}
+        p = problems.make_base(sp)()
+        _, _, _, _, _, _, nlp = p.transcribe()
+        nx = nlp["x"].shape[0]
+        rr = random.Random(11)
+        X = ca.DM([float(Fraction(rr.randint(-12, 12), 4)) for _ in range(nx)])
+        return [float(v) for v in np.array(ca.Function("g", [nlp["x"]], [nlp["g"]])(X)).ravel()], sp
+    try:
+        g_fine, sp1 = rows(stamps, fine)
+        g_coarse, sp2 = rows(coarse, cvals)
+    except Exception as e:  # noqa: BLE001
+        ctx.count("block_variant_exception_" + type(e).__name__)
+        return
+    ctx.count("block_input_variants")
+    bad = [(i, a, b) for i, (a, b) in enumerate(zip(g_fine, g_coarse)) if not tr.close(a, b, 1e-9)]
+    if len(g_fine) != len(g_coarse) or bad:
+        ctx.violation("delay/input-interpolation-on-history", {"spec": sp1, "coarse_spec": sp2, "differences": bad[:5]},
+                      what="a piecewise-constant input inside a delayed expression gives other rows when its series has fewer stamps: %s" % (bad[:2],))
+
+
 def model_term(s, X):
     ei = tr.env_index(s)
     q = lambda v: gq(tr.fx(Fraction(v)))  # noqa: E731
@@ -223,6 +276,8 @@ def run(ctx):
             alias_variant(ctx, s)
         if not replay and si % 3 == 1:
             member_variant(ctx, s)
+        if not replay and si % 3 == 2:
+            block_input_variant(ctx, s)
         try:
             X, g, lb, ub = delay_rows_impl(s, ctx.rng)
         except Exception as e:
